@@ -117,7 +117,10 @@ func (ex *Exec) ensureInit(p *ssa.Package) {
 		return
 	}
 	if init := p.Func("init"); init != nil && len(init.Blocks) > 0 {
+		saved := ex.initRunning
+		ex.initRunning = init
 		ex.callFunction(init, nil, nil)
+		ex.initRunning = saved
 	}
 }
 
@@ -129,10 +132,12 @@ func (ex *Exec) isModulePkg(p *ssa.Package) bool {
 	return path == ex.cfg.ModulePath || len(path) > len(ex.cfg.ModulePath) && path[:len(ex.cfg.ModulePath)+1] == ex.cfg.ModulePath+"/"
 }
 
+// initWanted: dependency packages whose initialiser only creates sentinel values that the code under
+// test compares against (io.EOF).
 func (ex *Exec) initWanted(p *ssa.Package) bool {
 	switch p.Pkg.Path() {
-	case "errors", "io", "context":
-		return false
+	case "io":
+		return true
 	}
 	return false
 }
@@ -178,8 +183,13 @@ func (ex *Exec) runFunction(fn *ssa.Function, args []Value, env []Value, caller 
 		ex.models[name] = true
 		return h(ex, caller, fn, args)
 	}
-	if fn.Name() == "init" && fn.Pkg != nil && fn.Signature.Recv() == nil && !ex.isModulePkg(fn.Pkg) {
-		// initialisers of dependencies are not executed (models own their state)
+	if fn.Name() == "init" && fn.Pkg != nil && fn.Signature.Recv() == nil && !ex.isModulePkg(fn.Pkg) && ex.initRunning != fn {
+		// initialisers of dependencies are not executed (models own their state), except the few that only
+		// create sentinel values (initWanted)
+		if ex.initWanted(fn.Pkg) {
+			ex.ensureInit(fn.Pkg)
+			return nil
+		}
 		ex.inited[fn.Pkg] = true
 		return nil
 	}
